@@ -8,12 +8,12 @@
 (***************************************************************************)
 EXTENDS ConfigRules
 
-CONSTANTS UniqueNames      \* TRUE = the loader rejects homonymous projects (repair of F7)
+CONSTANTS UniqueNames,     \* TRUE = the loader rejects homonymous projects (repair of F7)
+          Dirs            \* directories of the arrangement; "d0" is the root
 
 VARIABLES A, stack, visited, st, steps
 vars == <<A, stack, visited, st, steps>>
 
-Dirs == {"d0", "d1", "d2"}
 Names == {"", "x", "y", "!bad"}
 ImportSets == {s \in SUBSET [key : {"x", "y"}, dir : Dirs \cup {"gone"}] : Cardinality(s) <= 2}
 SetToSeqs(S) == {q \in [1..Cardinality(S) -> S] : \A i, j \in 1..Cardinality(S) : i # j => q[i] # q[j]}
